@@ -76,6 +76,26 @@ def run(ctx):
         vlib.sh([b, 'sweep'], timeout=60)
 
 
+def _validate(ctx, b, d, opts):
+    """Binding B: record deliveries on real nodes, validate with Chain_Trace; then corrupt one recorded
+    observation (the tip of the last delivery that moved it) and demand rejection."""
+    r, s = ctx.validate_recording(b, 'Chain_Trace', 'Chain_Trace.cfg', opts=opts, selftest=False, timeout=3600, stage=d)
+    for n in s.get('notes') or []:
+        ctx.notes.append(n)
+    if not r['accepted']:
+        return
+    tp = max((os.path.join(ctx.scratch, f) for f in os.listdir(ctx.scratch) if f.startswith('trace-') and f.endswith('.ndjson')),
+             key=os.path.getmtime)
+
+    def mutate(ev):
+        if ev.get('ev') == 'Done' and ev.get('seq'):
+            ev['seq'] = ev['seq'][:-1]
+            ev['last'] = ev['last'] - 1
+            return True
+        return False
+    ctx.trace_selftest('Chain_Trace', 'Chain_Trace.cfg', tp, mutate=mutate)
+
+
 def _run_conv(ctx, b, q):
     prop = ctx.prop
     ctx.rule = ('behaviours = every delivery order (TLC exhaustive export) of named tree shapes plus TLC-simulated orders with '
@@ -88,10 +108,17 @@ def _run_conv(ctx, b, q):
     ctx.tlc_mc('Chain_MC', 'Chain_MCs.cfg' if not q else _cfg(ctx, d, 'Chain_MCs.cfg', 'Chain_MCsq.cfg', Trees='ShapesQ'),
                workers=4, timeout=3600, stage=d)
     if not q:
-        r = ctx.tlc_mc('Chain_MC', 'Chain_MC.cfg', workers=6, timeout=7200, stage=d, coverage=True)
+        ctx.tlc_mc('Chain_MC', 'Chain_MC.cfg', workers=6, timeout=10800, stage=d)
+        ctx.tlc_mc('Chain_MC', 'Chain_MC5.cfg', workers=6, timeout=14400, stage=d)
+        ctx.tlc_mc('Chain_MC', _cfg(ctx, d, 'Chain_MCs.cfg', 'Chain_MC7.cfg', Trees='Shapes7'), workers=4, timeout=7200, stage=d)
+        # anti-vacuity: every action of the mechanism is taken, and the premises of the properties are reached
+        r = ctx.tlc_mc('Chain_MC', 'Chain_MCs.cfg', workers=2, timeout=7200, stage=d, coverage=True, count=False)
         if r.get('zero_actions'):
             raise vlib.Broken('vacuous: actions never taken: %s' % r['zero_actions'][:3])
-        ctx.tlc_mc('Chain_MC', _cfg(ctx, d, 'Chain_MCs.cfg', 'Chain_MC7.cfg', Trees='Shapes7'), workers=4, timeout=7200, stage=d)
+        r = ctx.tlc_mc('Chain_MC', _cfg(ctx, d, 'Chain_MCs.cfg', 'Chain_MCvac.cfg', append='INVARIANTS PremiseNeverHolds'),
+                       workers=2, timeout=7200, stage=d, expect_violation=True, count=False)
+        if r['violation'] != 'PremiseNeverHolds':
+            raise vlib.Broken('vacuous: the premise of Converged is never reached')
     # --- exhaustive delivery orders of named shapes, replayed on real nodes
     allb = ctx.tlc_genall('Chain_All', 'Chain_All.cfg' if q else _cfg(ctx, d, 'Chain_All.cfg', 'Chain_AllT.cfg', Trees='ShapesT'),
                           stage=d, timeout=3600)
@@ -100,11 +127,15 @@ def _run_conv(ctx, b, q):
         # S1 (24 orders) completely, every 3rd order of the two 5-block shapes
         keep = [x for i, x in enumerate(allb) if x['steps'][0]['n'] == 4 or i % 3 == 0]
     else:
-        keep = [x for i, x in enumerate(allb) if x['steps'][0]['n'] <= 5 or i % 2 == 0]
+        keep = [x for i, x in enumerate(allb) if x['steps'][0]['n'] <= 5 or i % 3 == 0]
     ctx.replay(b, keep, opts=dict(via='process'), par=8, timeout=7200)
     # --- simulated orders with duplicates over random trees; other entry points and configurations
-    n = 60 if q else 600
-    sims = ctx.tlc_sim('Chain_MC', 'Chain_Gen.cfg', num=n, depth=18, stage=d, timeout=1800)
+    n = 60 if q else 360
+    sims = ctx.tlc_sim('Chain_MC', 'Chain_Gen.cfg', num=n, depth=18, stage=d, timeout=3600)
+    if not q:
+        sims += ctx.tlc_sim('Chain_MC', 'Chain_Gen7.cfg', num=150, depth=11, stage=d, timeout=3600, seed=ctx.seed + 77)
+        import random
+        random.Random(ctx.seed).shuffle(sims)
     third = max(1, len(sims) // 3)
     ctx.replay(b, sims[:third], opts=dict(via='bus', salt=1), par=8, timeout=7200)
     ctx.replay(b, sims[third:2 * third], opts=dict(via='msg', salt=2), par=8, timeout=7200)
@@ -113,8 +144,7 @@ def _run_conv(ctx, b, q):
     else:
         ctx.replay(b, sims[2 * third:], opts=dict(via='process', salt=3, bcast=1), par=8, timeout=7200)
     # --- binding B
-    ctx.validate_recording(b, 'Chain_Trace', 'Chain_Trace.cfg', opts=dict(n=4 if q else 30, size=9 if q else 12),
-                           selftest=True, timeout=3600, stage=d)
+    _validate(ctx, b, d, dict(n=4 if q else 30, size=9 if q else 12))
 
 
 def _run_bad(ctx, b, q):
@@ -150,8 +180,7 @@ def _run_bad(ctx, b, q):
     sub = allb[::(9 if q else 3)]
     ctx.replay(b, sub, opts=dict(via='process', clause='c', salt=7), par=8, timeout=7200, count=False)
     ctx.replay(b, allb[1::(17 if q else 5)], opts=dict(via='bus', clause='ab', salt=8, bkind=bk[5]), par=8, timeout=7200, count=False)
-    ctx.validate_recording(b, 'Chain_Trace', 'Chain_Trace.cfg', opts=dict(n=4 if q else 24, size=7 if q else 10, bad=1),
-                           selftest=True, timeout=3600, stage=d)
+    _validate(ctx, b, d, dict(n=4 if q else 24, size=7 if q else 10, bad=1))
 
 
 import vlib  # noqa: E402
